@@ -522,4 +522,71 @@ theorem monitor_accepts_model (heap : Nat → Schema) (D : String → Schema) (e
     (hwf : WFrun heap D {} evs) : runMon {} (traceFrom {} evs) = none :=
   runMon_traceFrom evs {} (inv_init heap D) hwf
 
+/-! ### witnesses -/
+
+section Witness
+
+/-- `{"type":"object","properties":{"x":{"type":"number","maximum":18446744073709551617}}}` over
+`struct{ X float64 "x" }` -/
+def xSchema : Schema :=
+  .mk { ty := [.object] } [("x", .mk { ty := [.number], maximum := some (.ofInt 18446744073709551617) } [] none none)] none none
+def xToolD : ToolD :=
+  { ity := .struct [("x", false, .float64)], oty := .any, isch := xSchema, osch := none, eisch := xSchema, eosch := none }
+def xCall : CallIn :=
+  { args := .val (.obj [("x", .num (.ofInt 18446744073709551617))]), h := fun _ => {}, hout := none, argsNull := false }
+
+/-- **why `ExactOn` cannot be dropped**: 2^64+1 under `maximum: 2^64+1` is valid on exact numbers (the
+monitor's reading) but the model, like the server, sees the float64 next to it — printed 18446744073709552000 —
+and refuses; on this call the monitor rejects the model's own observation (as the unrepaired F9 shape).
+Integers outside [-2^63, 2^64) are outside what the model claims (tools/claims/C16.json, note). -/
+theorem monitor_rejects_model_outside_exact_range :
+    xToolD.EnforcesOwn ∧ (monitor xToolD xCall (obsOf (modelCall xToolD xCall))).isSome = true :=
+  ⟨⟨rfl, rfl⟩, by decide⟩
+
+/-! non-vacuity of `monitor_accepts_model`: a well-formed history with a registration through a cache, a
+replacement, and judged calls -/
+
+def brDecl : Decl String Schema :=
+  { inKey := "W", inAny := false, inGiven := none, outKey := "W", outAny := false, outGiven := some ⟨some 1, wSchema⟩ }
+def brD : String → Schema := fun _ => wSchema
+def brEv : ToolEv := { name := "t", ity := wTy, oty := wTy, decl := brDecl, env := gR brD }
+def brCallEv : CallEv :=
+  { args := wArgs 7, out := .json (.obj [("n", .num (.ofInt 7)), ("c", .str "x")]) (some (.obj [("n", .num (.ofInt 7)), ("c", .str "x")])),
+    content := none, herr := none }
+def brHistory : List Ev := [.server 1, .tool brEv, .call none brCallEv, .server 1, .tool brEv, .tool brEv, .call (some "t") brCallEv]
+
+theorem skeyed_wSchema : SKeyed wSchema := by
+  simp [wSchema, SKeyed, SKeyedProps, SKeyedOpt, keys]
+
+theorem brEv_wf : brEv.WF (fun _ => wSchema) brD :=
+  { ok := ⟨trivial, fun _ _ => rfl⟩, resolves := rfl, objectSchema := rfl, deriveIn := rfl, deriveOut := rfl,
+    keyedIn := skeyed_wSchema, keyedOut := fun s h => by cases h; exact skeyed_wSchema }
+
+def brOut : JVal := .obj [("n", .num (.ofInt 7)), ("c", .str "x")]
+
+theorem brCallEv_exact (td : ToolD) (ci : CallIn) (h : mkCall td brCallEv = some ci) : ExactOn td ci := by
+  have ho : outOf td.oty brCallEv.out = some (.json brOut, some brOut) := by
+    simp only [brCallEv, outOf, brOut]
+    cases td.oty <;> rfl
+  unfold mkCall at h
+  rw [ho] at h
+  cases h
+  apply exactOn_of_inRange
+  · intro m hm; cases hm; decide
+  · intro x j hj; cases hj; decide
+
+theorem brHistory_wf : WFrun (fun _ => wSchema) brD {} brHistory := by
+  refine ⟨trivial, brEv_wf, ?_, trivial, brEv_wf, brEv_wf, ?_, trivial⟩
+  · intro td ci _ hm; exact brCallEv_exact td ci hm
+  · intro td ci _ hm; exact brCallEv_exact td ci hm
+
+/-- the hypotheses of `monitor_accepts_model` are satisfiable by a history whose calls are really judged:
+the trace has one record per event, and both calls reach `judgeCall` (the callee is found) -/
+example : runMon {} (traceFrom {} brHistory) = none := monitor_accepts_model _ _ _ brHistory_wf
+example : (traceFrom {} brHistory).length = 7 := rfl
+example : ((([.server 1, .tool brEv] : List Ev).foldl MState.next {}).callee none).isSome = true := by decide
+example : (((brHistory.take 6).foldl MState.next {}).callee (some "t")).isSome = true := by decide
+
+end Witness
+
 end TypedTool
